@@ -21,16 +21,16 @@ type opResult struct {
 }
 
 const (
-	opResolve0 = iota // resolve registration 0 in the shared scope
-	opResolve1        // resolve registration 1 in the shared scope
-	opResolveChild    // resolve registration 0 in the child scope
-	opCreateChild     // create (and keep) a child of the shared scope
-	opCreateTop       // create a scope on the provider
-	opCloseShared     // close the shared scope
-	opCloseProvider   // close the provider
-	opCancelShared    // cancel the context the shared scope was created with
-	opResolveRoot     // resolve registration 0 on the provider itself
-	opCloseChild      // close the child of the shared scope
+	opResolve0      = iota // resolve registration 0 in the shared scope
+	opResolve1             // resolve registration 1 in the shared scope
+	opResolveChild         // resolve registration 0 in the child scope
+	opCreateChild          // create (and keep) a child of the shared scope
+	opCreateTop            // create a scope on the provider
+	opCloseShared          // close the shared scope
+	opCloseProvider        // close the provider
+	opCancelShared         // cancel the context the shared scope was created with
+	opResolveRoot          // resolve registration 0 on the provider itself
+	opCloseChild           // close the child of the shared scope
 	numOps
 )
 
